@@ -28,8 +28,12 @@ def val(rng):
     r = rng.random()
     if r < 0.06:
         return 0                      # NULL element
-    if r < 0.50:
+    if r < 0.48:
         return rng.randint(1, 8)      # duplicates likely
+    if r < 0.50:
+        # pre-images of NULL (and its neighbours) under the harness copy callback v -> v + 1000 (mod 2^64): a deep copy whose
+        # image contains NULL is a legal deep copy (a library that treats `cp() == NULL` as a failure breaks on it)
+        return rng.choice([SIZE_MAX - 999, SIZE_MAX - 999, SIZE_MAX - 1000, SIZE_MAX - 998])
     if r < 0.62:
         # CONVENTIONS Addendum 3: partners of the small values that differ from them by exactly 2^31, 2^32, 2^63, and
         # values next to 2^64-1 (a comparison that truncates a difference to int / 32 bits calls them equal or
@@ -633,8 +637,15 @@ class LinkedGen:
             if n:
                 sim.s[to] = [x for x in l if x % 2 == 0]
             return [f"mk_filter to={to}{o}"]
+        pre = []
+        if c == "mk_copy_deep" and rng.random() < 0.35:
+            # the copy callback maps this element to NULL
+            v = SIZE_MAX - 999
+            i = rng.choice([0, n // 2, n])
+            l.insert(i, v)
+            pre = [f"add_at {v} idx={i}{o}"] if i < n else [f"add {v}{o}"]
         sim.s[to] = list(l) if c == "mk_copy_shallow" else [(x + 1000) % 2**64 for x in l]
-        return [f"{c} to={to}{o}"]
+        return pre + [f"{c} to={to}{o}"]
 
     def sort_op(self, rng, sim, k):
         l = sim.s[k]
@@ -1235,6 +1246,12 @@ class LinkedGen:
                 for c in ("mk_copy_shallow to=1", "mk_copy_deep to=1", "mk_filter to=1"):
                     out.append(base + [c] + follow)
                     out.append(base + [c] + follow2)
+                # deep copy of a list holding the pre-image of NULL under the copy callback (2^64 - 1000) at the front / in the
+                # middle / at the back, alone, and next to its neighbours: the image contains NULL and is a complete copy
+                z = SIZE_MAX - 999
+                for vals in ([z], [z, 5], [5, z], [5, z, 6], [z, z], [z - 1, z, z + 1], [0, z, 0]):
+                    for c in ("mk_copy_deep to=1", "mk_copy_shallow to=1"):
+                        out.append(build(vals[:max(n, 1)] if n < len(vals) else vals) + [c, "size o=1", "get_first o=1", "get_last o=1", "contains 0 o=1"] + follow)
                 for b in sorted(set([0, 1, max(n - 1, 0), n, SIZE_MAX])):
                     for e in sorted(set([0, 1, max(n - 1, 0), n, n + 1, SIZE_MAX])):
                         out.append(base + [f"mk_sub b={b} e={e} to=1"] + follow)
